@@ -304,7 +304,7 @@ var fillers = map[string]string{
 	"SMB_FILE_ATTRIBUTES": "c.%[1]s = types.SMB_FILE_ATTRIBUTES{Attributes: vU16(%[2]q)}",
 	"SMB_NMPIPE_STATUS":   "c.%[1]s = types.SMB_NMPIPE_STATUS{ICount: vU8(%[2]q + \".icount\"), Flags: vU8(%[2]q + \".flags\")}",
 	"SMB_RESUME_KEY":      "c.%[1]s = *types.NewSMB_RESUME_KEY()\n\tc.%[1]s.Reserved = vU8(%[2]q + \".reserved\")\n\tcopy(c.%[1]s.ServerState[:], vBytes(%[2]q+\".server\", 16))\n\tcopy(c.%[1]s.ClientState[:], vBytes(%[2]q+\".client\", 4))",
-	"Dialects":            "c.%[1]s.Dialects = []string{\"NT LM 0.12\"}",
+	"Dialects":            "c.%[1]s.Dialects = []string{\"NT LM 0.12\", string(noNUL(vBytes(%[2]q, L)))} // a well-known dialect and one of arbitrary (NUL-free) bytes",
 }
 
 // pad lengths the decoder derives from other lengths (must be filled after the buffers they depend on: declared order)
